@@ -333,11 +333,48 @@ fn announce(v: Value) {
     let _ = std::io::stdout().flush();
 }
 
-fn compare(report: &Report, hist: &[HOp], fault_desc: &Value, phase: &str, tail: &str, found: &[(String, Value)], truth: &[(String, Value)]) {
+/// Reports every capability whose answer differs from the truth and returns the differing query
+/// kinds. `attributed` (fault pairs only): the kinds that already differ under one of the pair's
+/// faults alone -- those are the single-fault result again and are counted, not reported; a kind
+/// that differs ONLY under the combination is reported under its own `pair_only` signature.
+fn compare(report: &Report, hist: &[HOp], fault_desc: &Value, phase: &str, tail: &str, found: &[(String, Value)], truth: &[(String, Value)]) -> std::collections::BTreeSet<String> {
+    compare_attr(report, hist, fault_desc, phase, tail, found, truth, None)
+}
+
+#[allow(clippy::too_many_arguments)]
+fn compare_attr(
+    report: &Report,
+    hist: &[HOp],
+    fault_desc: &Value,
+    phase: &str,
+    tail: &str,
+    found: &[(String, Value)],
+    truth: &[(String, Value)],
+    attributed: Option<&std::collections::BTreeSet<String>>,
+) -> std::collections::BTreeSet<String> {
     let mut seen = std::collections::BTreeSet::new();
+    let mut kinds = std::collections::BTreeSet::new();
     for ((name, a), (_, b)) in found.iter().zip(truth.iter()) {
         if a != b {
             let q = name.split('(').next().unwrap_or(name).to_string();
+            kinds.insert(q.clone());
+            if let Some(att) = attributed {
+                if att.contains(&q) {
+                    report.count("pair_differences_already_present_under_one_fault_alone", 1);
+                    continue;
+                }
+                let fam = fault_desc["file"].as_str().unwrap_or("none").to_string();
+                let fault = fault_desc["fault"].as_str().unwrap_or("none").to_string();
+                let sig = format!("C04:pair_only:{q}:{fam}:{fault}:{tail}:{phase}");
+                if seen.insert(sig.clone()) {
+                    report.violation(
+                        &sig,
+                        json!({"engine": "H-histories", "harness": "c04.faults", "history": hist.iter().map(op_name).collect::<Vec<_>>(), "fault": fault_desc, "phase": phase, "query": name, "tail": tail}),
+                        &format!("{name} is right under each fault alone and wrong under both: with the faults = {} ; with the caches removed = {}", crate::common::compact(a, 400), crate::common::compact(b, 400)),
+                    );
+                }
+                continue;
+            }
             let fam = fault_desc["file"].as_str().unwrap_or("none").to_string();
             let fault = fault_desc["fault"].as_str().unwrap_or("none").to_string();
             let class = if a.get("err").is_some() && b.get("ok").is_some() { "error_instead_of_answer" } else { "wrong_answer" };
@@ -353,6 +390,7 @@ fn compare(report: &Report, hist: &[HOp], fault_desc: &Value, phase: &str, tail:
             );
         }
     }
+    kinds
 }
 
 /// What the open-time recovery can see: the kind of the thread's last frame, and whether the
@@ -439,6 +477,8 @@ fn check_history(report: &Report, rt: &std::sync::Arc<tokio::runtime::Runtime>, 
             fault_sets.push(files.iter().filter(|f| *f != keep).map(|f| (f.clone(), Fault::Delete)).collect());
         }
     }
+    // query kinds that differ under one fault alone, per (file, fault): the attribution table for pairs
+    let mut single_diffs: std::collections::HashMap<(String, String), std::collections::BTreeSet<String>> = std::collections::HashMap::new();
     for set in fault_sets {
         if report.over_cap() {
             return;
@@ -465,7 +505,19 @@ fn check_history(report: &Report, rt: &std::sync::Arc<tokio::runtime::Runtime>, 
         let found = all_answers_ordered(&faulted, &thread, light, max_anchors, true);
         report.eval(Some(&(&hist_names, desc.to_string(), "restart")));
         report.count("fault_cases", 1);
-        compare(report, hist, &desc, "after_fault", &tail, &found, &truth);
+        if set.len() > 1 {
+            let mut att = std::collections::BTreeSet::new();
+            for (file, fault) in &set {
+                if let Some(k) = single_diffs.get(&(file.clone(), fault_name(fault))) {
+                    att.extend(k.iter().cloned());
+                }
+            }
+            report.count("fault_pair_cases", 1);
+            compare_attr(report, hist, &desc, "after_fault", &tail, &found, &truth, Some(&att));
+            continue;
+        }
+        let kinds = compare(report, hist, &desc, "after_fault", &tail, &found, &truth);
+        single_diffs.insert((set[0].0.clone(), fault_name(&set[0].1)), kinds);
         if heavy {
             continue;
         }
@@ -579,9 +631,11 @@ fn worker(opts: Opts) -> i32 {
         if report.over_cap() {
             break;
         }
-        // pairs of faults are disabled: single-fault findings (see known_findings.json) would have to be
-        // attributed inside every pair first; singles on deeper histories are explored instead
-        check_history(&report, &rt, h, false, tier == Tier::Quick);
+        // pairs of faults (and "every file but one deleted"): thorough, histories of <= 3 operations
+        // (quick: of 1 operation). A difference that one of the two faults causes alone is that
+        // single-fault result again (reported or listed there); only what the combination adds is new.
+        let pairs = h.len() <= tier.pick(1, 3);
+        check_history(&report, &rt, h, pairs, tier == Tier::Quick);
         if shard == 0 && i < 3 * of {
             report.sample(json!({"history": h.iter().map(op_name).collect::<Vec<_>>(), "faults": "every single fault on every cache file of the thread, then one append"}));
         }
